@@ -487,6 +487,12 @@ def check_c07(ctx):
         "rule": "ExecOpt explores every behaviour (operation model of H-Revolve: store on advance to "
                 "RAM/DISK, load, discard; no direct RAM<->DISK transfer) with cost below the claim",
     }
+    cov["design_level_generator_model"] = design.gen_disk(ctx)
+    try:        # diagnostic, never a violation and never breaks the check
+        from . import classprops
+        cov["conformance_drift"] = classprops.gen_drift_disk(ctx, 16 if ctx.tier == "quick" else 30)
+    except Exception as ex:
+        cov["conformance_drift"] = {"status": "diagnostic could not be completed", "error": f"{type(ex).__name__}: {ex}"[:400]}
     return viols, cov, ["the search space is the operation model of Revolve / Disk-Revolve / H-Revolve "
                         "(no direct transfer between RAM and DISK)",
                         "beyond the searched box: the recurrences of Aupy et al. (2016) and Herrmann & Pallez (2020) "
